@@ -22,7 +22,9 @@ import Sigc.SlotGLemmasInval
 
   The model is the library *after* the fixes of findings F10 (a8d1bb0), F11 (6def444) and F12 (1467ef2)
   (docs/SLOTG.md): both assignment operators let the variable refer to the new representation before the old one
-  is deleted, and `delete_rep_with_check()` clears `rep_` before it deletes.  There is no `xparent` rule and no
+  is deleted, and `delete_rep_with_check()` clears `rep_` before it deletes; and after the fix of F14 (076d91d):
+  in these places the observers of the old representation are notified before it is deleted
+  (`assign_owned_connection_safe`).  There is no `xparent` rule and no
   rule about what the destination of an assignment owns any more: `wf_reachable` holds for every program;
   `exchange_no_dead_parent` and `delete_rep_self_owned_safe` state the F10 and F12 situations explicitly.
 -/
@@ -49,7 +51,9 @@ theorem wf_reachable (ops : List Op) : WF (run ops) :=
   6. a trackable holds no entry of a dead representation or of one that does not refer to it, no nulled entry,
      and is not clearing;
   7. a functor that refers to / owns a slot variable refers to / owns a live one (one of the program's), and a
-     functor that binds a slot by value holds a live anonymous variable of its own (`anonBase + r`). -/
+     functor that binds a slot by value holds a live anonymous variable of its own (`anonBase + r`);
+  8. a functor that owns a connection object owns a live one (and by 1./2. that connection, like every other, is
+     registered exactly where it points — also when it points at the very slot variable that stores the functor). -/
 theorem no_dangling (ops : List Op) :
     let s := run ops
     (∀ c v, s.conns c = some (some v) →
@@ -67,12 +71,13 @@ theorem no_dangling (ops : List Op) :
     (∀ r R fid v, s.reps r = some R → R.fn = some (.sref fid v) → v < anonBase ∧ ∃ V, s.slots v = some V) ∧
     (∀ r R fid v t, s.reps r = some R → R.fn = some (.own fid v t) → v < anonBase ∧ ∃ V, s.slots v = some V) ∧
     (∀ r R fid v d, s.reps r = some R → R.fn = some (.nest fid v d) →
-      v = anonBase + r ∧ ∃ V, s.slots v = some V) := by
+      v = anonBase + r ∧ ∃ V, s.slots v = some V) ∧
+    (∀ r R fid c, s.reps r = some R → R.fn = some (.ownc fid c) → ∃ p, s.conns c = some p) := by
   intro s
   have hw : WF s := wf_reachable ops
   have h := hw.inv
   refine ⟨?_, fun r R c hR hm => hw.cbsConn' hR hm, ?_, ⟨h.repAlive, h.repUniq, hw.held⟩, ?_, ?_, ?_, h.ownOk,
-    h.nestOk⟩
+    h.nestOk, h.ownCOk⟩
   · intro c v hc
     obtain ⟨r, R, hr, hR, hm⟩ := hw.connReg' hc
     obtain ⟨V, hV, hVr⟩ := repOf_eq.mp hr
@@ -183,6 +188,47 @@ theorem delete_rep_self_owned_safe {s : State} (hw : WF s) (d : Nat) (hnm : d < 
     refine ⟨by simp [check, check0, Op.named, Op.names, hdd, hdx, hbeq, hnd, hnx'],
       by simp [check, check0, Op.named, Op.names, hdd, hdx, hbeq, hnd, hnx'], ?_, ?_⟩ <;>
       simp [apply, hX, hbeq', hemp]
+
+/-- **F14, the situation itself** (fixed: 076d91d).  A functor may own (`shared_ptr`) a `sigc::connection` — also
+    one made from the very slot variable that stores the functor.  When that variable loses the functor by an
+    assignment of any kind (`asgS`, `masgS`, `setS`, `clrS`; also from an empty source) `rep_` is switched first
+    (F10/F12), so the dying connection can only deregister through the *new* `rep_`; the library therefore tells the
+    observers of the old representation (`notify_callbacks()`) before it deletes it.  Consequence, for every
+    well-formed state and whatever the old functor owns: afterwards the state is well-formed — in particular no
+    representation carries the registration of a dead connection, every connection that still exists and is not null
+    is registered on the current representation of a live variable, and a connection owned by a dead functor is
+    gone. -/
+theorem assign_owned_connection_safe {s : State} (hw : WF s) (op : Op)
+    (_hop : (∃ d x, op = .asgS d x) ∨ (∃ d x, op = .masgS d x) ∨ (∃ d f, op = .setS d f) ∨ (∃ d, op = .clrS d))
+    (hc : check s op = none) (he : (apply op s).err = false) :
+    WF (apply op s) ∧
+    (∀ r R c, (apply op s).reps r = some R → c ∈ R.cbs →
+      ∃ v, (apply op s).conns c = some (some v) ∧ repOf (apply op s) v = some r) ∧
+    (∀ c v, (apply op s).conns c = some (some v) →
+      ∃ r R, repOf (apply op s) v = some r ∧ (apply op s).reps r = some R ∧ c ∈ R.cbs) ∧
+    (∀ r R fid c, (apply op s).reps r = some R → R.fn = some (.ownc fid c) →
+      ∃ p, (apply op s).conns c = some p) := by
+  have hw' := apply_wf hw op hc he
+  exact ⟨hw', fun r R c hR hm => hw'.cbsConn' hR hm, fun c v hcv => hw'.connReg' hcv, hw'.inv.ownCOk⟩
+
+/-- non-vacuity, the F14 program: `S1`'s functor owns `C1`, `C1` was made from `S1` (registered on `S1`'s
+    representation 0).  `*S1 = slot()`, `*S1 = *S2` and `*S1 = std::move(*S2)` are performed, the old representation
+    and the connection are gone, nothing dangles; with two functor copies sharing the connection the first
+    assignment only nulls it. -/
+def exF14 : State :=
+  run [.mkS0 1, .newC 1, .setS 1 (.ownc 1 1), .connS 2 1, .asgC 1 2, .delC 2, .mkS 2 (.fn 2)]
+
+example : exF14.conns 1 = some (some 1) ∧ repOf exF14 1 = some 0 ∧ (exF14.reps 0).map (·.cbs) = some [1] ∧
+    ownedCBy exF14 1 = true ∧ check exF14 (.delC 1) = some "owned" ∧
+    check exF14 (.clrS 1) = none ∧ (apply (.clrS 1) exF14).conns 1 = none ∧
+    (apply (.clrS 1) exF14).reps 0 = none ∧
+    check exF14 (.asgS 1 2) = none ∧ (apply (.asgS 1 2) exF14).conns 1 = none ∧
+    (apply (.asgS 1 2) exF14).reps 0 = none ∧ repOf (apply (.asgS 1 2) exF14) 1 = some 2 ∧
+    ((apply (.asgS 1 2) exF14).reps 2).map (·.cbs) = some [] ∧
+    (apply (.masgS 1 2) exF14).conns 1 = none ∧ repOf (apply (.masgS 1 2) exF14) 1 = some 1 ∧
+    -- a copy of the owning slot shares the connection: it survives the first assignment, nulled
+    (apply (.asgS 1 2) (stepState (.cpS 3 1) exF14)).conns 1 = some none ∧
+    ownedCBy (apply (.asgS 1 2) (stepState (.cpS 3 1) exF14)) 1 = true := by decide
 
 /-- non-vacuity: the F12 program — `S1` is kept alive by the functor it stores; `*S1 = slot()` is performed, the
     functor's destruction destroys `S1`, nothing is left; and the same through an assignment from an empty slot -/
@@ -538,8 +584,9 @@ theorem connected_stays {s : State} (hw : WF s) (op : Op) (c : Nat) (hb : boundC
     obtain ⟨X, hX, hmX, hcallX⟩ := hF.regs r R' c hR' hm' (fun h => hb h.symm) hcall'
     obtain ⟨v0, hv0, hr0⟩ := hw.cbsConn' hX hmX
     have hvv : v0 = v := by
-      rcases hF.conns c (fun h => hb h.symm) with h | h
+      rcases hF.conns c (fun h => hb h.symm) with h | h | h
       · rw [hv', hv0] at h; cases h; rfl
+      · rw [hv'] at h; cases h
       · rw [hv'] at h; cases h
     subst hvv
     exact ⟨(connected_iff hw c).mpr ⟨v0, r, X, hv0, hr0, hX, hcallX, hmX⟩, v0, r, hv0, hv', hr0, hr'⟩
